@@ -30,11 +30,58 @@ def load_known():
     return json.load(open(p)).get("findings", [])
 
 
+def _unify(pat, op, env):
+    """pattern op like ["$s", "create", "$X"] against a concrete op; $s/$t are opposite sides"""
+    if len(pat) != len(op):
+        return None
+    env = dict(env)
+    for p, v in zip(pat, op):
+        if isinstance(p, str) and p.startswith("$"):
+            if p in ("$s", "$t"):
+                other = "$t" if p == "$s" else "$s"
+                if p in env and env[p] != v:
+                    return None
+                if other in env and env[other] == v:
+                    return None
+                if v not in (0, 1):
+                    return None
+            elif p in env and env[p] != v:
+                return None
+            env[p] = v
+        elif p != v:
+            return None
+    return env
+
+
+def _contains(pats, ops, env=None):
+    """every pattern op occurs somewhere in ops (any order), under one consistent variable assignment"""
+    env = env or {}
+    if not pats:
+        return True
+    for op in ops:
+        e2 = _unify(pats[0], op, env)
+        if e2 is not None and _contains(pats[1:], ops, e2):
+            return True
+    return False
+
+
 def match_known(known, prop, sig):
+    """a finding matches when every key of its 'match' agrees with the signature:
+    key            equality;  key_in  membership;  ops_contain  pattern ops all present in sig['ops']"""
     for f in known:
         if f.get("property") != prop or f.get("status") != "known":
             continue
-        if all(sig.get(k) == v for k, v in f["match"].items()):
+        ok = True
+        for k, v in f["match"].items():
+            if k == "ops_contain":
+                ok = isinstance(sig.get("ops"), list) and _contains(v, sig["ops"])
+            elif k.endswith("_in"):
+                ok = sig.get(k[:-3]) in v
+            else:
+                ok = sig.get(k) == v
+            if not ok:
+                break
+        if ok:
             return f
     return None
 
@@ -101,6 +148,7 @@ def main():
             problems.append("symx self-validation failed: %s" % (selftest["failures"][:3] if selftest else out[-500:]))
 
     violations = []
+    known_replayed = {}
     known_hits = []
     replays_done = 0
     twins = []
@@ -132,7 +180,9 @@ def main():
             except Exception as e:
                 sig = {"sigerror": repr(e)}
             f["sig"] = sig
-            groups.setdefault(json.dumps(sig, sort_keys=True), []).append(f)
+            kf0 = match_known(known, prop, sig) if role == "main" else None
+            gk = "known:" + kf0["id"] if kf0 else json.dumps(sig, sort_keys=True)
+            groups.setdefault(gk, []).append(f)
         if role == "sens":
             fired = False
             for key, fs in list(groups.items())[:3]:
@@ -149,6 +199,11 @@ def main():
             twins.append({"label": job["label"], "kind": "reachability", "fired": c.get("ok", 0) + c.get("fail", 0) > 0})
         for key, fs in groups.items():
             sig = fs[0]["sig"]
+            if key.startswith("known:") and known_replayed.get(key, 0) >= 3:
+                # this finding's signature family already reproduced three times in this run: attribute without another replay
+                kf = match_known(known, prop, sig)
+                known_hits.append({"finding": kf["id"], "what": kf["what"], "sig": sig, "paths": len(fs), "label": job["label"], "replayed": False})
+                continue
             if replays_done > 60:
                 problems.append("%s: more than 60 distinct failing signatures; not all replayed" % job["label"])
                 break
@@ -172,7 +227,8 @@ def main():
                 continue
             kf = match_known(known, prop, sig)
             if kf:
-                known_hits.append({"finding": kf["id"], "what": kf["what"], "sig": sig, "paths": len(fs), "label": job["label"]})
+                known_replayed["known:" + kf["id"]] = known_replayed.get("known:" + kf["id"], 0) + 1
+                known_hits.append({"finding": kf["id"], "what": kf["what"], "sig": sig, "paths": len(fs), "label": job["label"], "replayed": True})
             else:
                 n = len(violations) + 1
                 path = os.path.join(HERE, "replays", "%s-%d.json" % (prop, n))
